@@ -223,9 +223,35 @@ def refit_histories(ctx, rs):
             ctx.fail("UMAP.fit(refit).graph_:differs_from_fresh_estimator", "graph_ of the refitted estimator differs from a fresh estimator's (%s)" % name, dict(op="refit", scenario=name, X=X, y=yy))
 
 
+def aligned_mappers(ctx, rs):
+    """AlignedUMAP keeps one fitted UMAP model per slice (mappers_): their graph_ is a fitted graph like any other -- no stored zeros,
+    identical whatever n_epochs / learning_rate the alignment optimiser is run with"""
+    import umap.aligned_umap as AU
+    n = 60
+    base = np.concatenate([rs.normal(size=(n // 3, 4)) * s_ + c_ for s_, c_ in ((0.2, 0.0), (1.0, 4.0), (3.0, 12.0))]).astype(np.float32)
+    slices = [base[:45].copy(), base[10:55].copy(), base[15:60].copy()]
+    rel = [{i + 10: i for i in range(35)}, {i + 5: i for i in range(40)}]
+    sigs = {}
+    for name, kw in (("default", {}), ("epochs30", dict(n_epochs=30)), ("epochs400_lr", dict(n_epochs=400, learning_rate=0.2)), ("min_dist", dict(n_epochs=30, min_dist=0.5))):
+        d = dict(op="AlignedUMAP.fit", variant=name, kwargs=kw, slices=[s_.shape for s_ in slices])
+        try:
+            am = AU.AlignedUMAP(n_neighbors=12, random_state=5, **kw).fit(slices, relations=rel)
+        except Exception as e:
+            ctx.count("aligned_raised:%s" % type(e).__name__); continue
+        for i_, mp in enumerate(am.mappers_):
+            check_graph(ctx, mp, None, dict(d, slice=i_), "AlignedUMAP.mappers_[%d]" % i_)
+            sigs.setdefault(i_, {})[name] = graph_sig(mp)
+        ctx.tag(("aligned", name), ["aligned_mappers"])
+    for i_, byname in sigs.items():
+        if len(set(byname.values())) > 1:
+            ctx.fail("AlignedUMAP.mappers_.graph_:depends_on_layout_hyperparameters", "graph_ of slice %d differs between alignment runs that change only n_epochs / learning_rate / min_dist: %s"
+                     % (i_, sorted(byname)), dict(op="AlignedUMAP.fit", slice=i_, slices=[s_.shape for s_ in slices]))
+
+
 def other_graph_producers(ctx, env, rs):
     """update() and the combination operators: result graphs hold no stored zeros and do not depend on n_epochs of the operands"""
     refit_histories(ctx, rs)
+    aligned_mappers(ctx, rs)
     n = 36
     X = rs.normal(size=(n, 4)).astype(np.float32); X2 = rs.normal(size=(9, 4)).astype(np.float32)
     sigs = {}
